@@ -426,8 +426,11 @@ Proof.
     intros p [<-|Hp]; [exact Hlot | apply Hlots; exact Hp].
 Qed.
 
+Lemma attach_from_map s (l : list xpost) : attach_from s (map fst l) (map snd l) = l.
+Proof. induction l as [|[p e] l IH]; cbn [map attach_from fst snd]; [reflexivity | rewrite IH; reflexivity]. Qed.
+
 Lemma attach_map (l : list xpost) : attach (map fst l) (map snd l) = l.
-Proof. induction l as [|[p e] l IH]; cbn [map attach fst snd]; [reflexivity | rewrite IH; reflexivity]. Qed.
+Proof. unfold attach. apply attach_from_map. Qed.
 
 Lemma written_all_have_amounts cp l : Forall (wf_written cp) l -> all_have_amounts (map fst l).
 Proof.
@@ -968,3 +971,56 @@ Proof.
 Qed.
 
 End WrittenCost.
+
+(* ================================================================== a single posting under a bucket *)
+Section Bucket.
+Local Open Scope Q_scope.
+
+(* finalize under `bucket B` / `A B` / `account B` + `default`: a lone posting that must balance gets a
+   second posting on B with the negated amount *)
+Lemma bucket_finalize ord cp b acct k a :
+  k <> PVirtual ->
+  finalize ord cp (Some b) [mkp acct k (Some a)]
+  = Ok (Accepted [mkp acct k (Some a); mkPost b PReal (Some (amt_neg (unkeep a))) None None true false false]).
+Proof. intros Hk. destruct k; try contradiction; reflexivity. Qed.
+
+(* print such a transaction and read the text back (the printed text carries no bucket directive:
+   the inferred posting is written as a bare account line): the same two postings - accounts, kinds,
+   exact amounts - and BOTH carry the state of the written posting, in the original and in the
+   re-read journal.  The hypothesis on the state is parse_post's invariant (see posting_state_roundtrip) *)
+Theorem bucket_single_posting_roundtrip ord cp xs b acct k a e :
+  k <> PVirtual -> printable cp a -> is_zero cp a = false ->
+  e_given e = None -> e_assigned e = None -> (e_state e = SUncleared -> xs = SUncleared) ->
+  let ps' := [mkp acct k (Some a); mkPost b PReal (Some (amt_neg (unkeep a))) None None true false false] in
+  finalize ord cp (Some b) [mkp acct k (Some a)] = Ok (Accepted ps') /\
+  map (fun x => e_state (snd x)) (attach ps' [e]) = [e_state e; e_state e] /\
+  exists ls, decide cp xs (attach ps' [e]) = Ok ls /\
+    map (fun x => e_state (snd x)) (reread cp xs ls) = [e_state e; e_state e] /\
+    exists ps'', finalize ord cp None (map fst (reread cp xs ls)) = Ok (Accepted ps'') /\ Forall2 psim ps'' ps'.
+Proof.
+  intros Hk Hp Hnz Hg Hasg Hinv ps'. split; [apply bucket_finalize; exact Hk|]. split; [reflexivity|].
+  unfold ps', attach. cbn [attach_from]. unfold decide. cbn [length decide_from].
+  assert (He1 : forall x, elides 2 1 x x = false) by reflexivity.
+  unfold decide_post. cbn [mkp p_generated p_calculated p_amt p_acct p_kind p_lotprice p_cost_calculated].
+  rewrite (He1 (mkp acct k (Some a), e)). unfold mkp in *. rewrite Hg, Hasg. cbn [bind no_extra].
+  eexists. split; [reflexivity|].
+  assert (Hrv : read_back_value cp a = read_back cp a) by (unfold read_back_value; rewrite Hnz; reflexivity).
+  destruct (read_back_exact cp a Hp) as [Hrb [Hrc _]].
+  unfold reread, reread_line. cbn [map fst snd l_cost l_amt l_acct l_kind l_lot l_mark l_assigned e_state].
+  split.
+  - rewrite (mark_roundtrip xs e Hinv).
+    assert (H2 : read_state xs (mark_of xs (no_extra (e_state e))) = e_state e)
+      by (apply (mark_roundtrip xs (no_extra (e_state e))); exact Hinv).
+    rewrite H2. reflexivity.
+  - change (mkPost acct k (Some (read_back_value cp a)) None None false false false)
+      with (mkp acct k (Some (read_back_value cp a))).
+    change (mkPost b PReal None None None false false false) with (mkp b PReal None).
+    rewrite (elided_second_is_negation ord cp acct k (read_back_value cp a) b PReal Hk ltac:(discriminate)).
+    eexists. split; [reflexivity|].
+    constructor; [|constructor; [|constructor]]; unfold psim, mkp; cbn [p_acct p_kind p_amt p_cost];
+      rewrite Hrv; repeat split; cbn [osim]; try exact I; try assumption;
+      try (rewrite !amt_neg_exact; cbn [unkeep aq]; rewrite Hrb; reflexivity);
+      try (cbn [amt_neg unkeep acomm]; exact Hrc).
+Qed.
+
+End Bucket.
